@@ -591,6 +591,7 @@ func (n *node) RouteLinkPID(pid gen.PID, target gen.PID) error {
 	if err := connection.LinkPID(pid, target); err != nil {
 		return err
 	}
+	lib.VerifPoint(n, "RouteLinkPID:remote:before-add")
 
 	return n.targetManager.AddLink(pid, target)
 }
@@ -894,6 +895,7 @@ func (n *node) RouteMonitorPID(pid gen.PID, target gen.PID) error {
 	if err := connection.MonitorPID(pid, target); err != nil {
 		return err
 	}
+	lib.VerifPoint(n, "RouteMonitorPID:remote:before-add")
 	return n.targetManager.AddMonitor(pid, target)
 }
 
